@@ -79,25 +79,34 @@ Proof.
   destruct (all_some (map f t)) as [r'|]; [|discriminate]. intros Hr. now rewrite (IH r' eq_refl).
 Qed.
 
+Lemma member_value_agree s (Hc : canonical s) f n sel v
+  (IH : forall n0 sels j, exec (spec_field s) (alive s) true f n0 sels = Some j -> exec (local_field s) (alive s) false f n0 sels = Some j) :
+  member_value (spec_field s) (exec (spec_field s) (alive s) true f) n sel = Some v ->
+  member_value (local_field s) (exec (local_field s) (alive s) false f) n sel = Some v.
+Proof.
+  destruct sel as [a nm incl tn sub]. unfold member_value.
+  pose proof (field_agree s n (ISel a nm incl tn sub) Hc) as Hag.
+  destruct (spec_field s n (ISel a nm incl tn sub)) as [j0|c0|cs| |] eqn:Es; try discriminate.
+  - destruct (Hag ltac:(discriminate)) as [<-|(Hj & c0 & -> & Hdead)]; [auto|].
+    injection Hj as ->. intros H. destruct f; cbn [exec]; rewrite Hdead; cbn [negb]; exact H.
+  - destruct (Hag ltac:(discriminate)) as [<-|(Hj & _)]; [|discriminate].
+    destruct (exec (spec_field s) (alive s) true f c0 sub) as [jc|] eqn:Ec; [|discriminate].
+    now rewrite (IH _ _ _ Ec).
+  - destruct (Hag ltac:(discriminate)) as [<-|(Hj & _)]; [|discriminate].
+    destruct (all_some (map (fun c0 => exec (spec_field s) (alive s) true f c0 sub) cs)) as [js|] eqn:Ecs; [|discriminate].
+    now rewrite (all_some_map_agree _ (fun c0 => exec (local_field s) (alive s) false f c0 sub) _ _ (fun x y => IH x sub y) Ecs).
+  - destruct (Hag ltac:(discriminate)) as [<-|(Hj & _)]; [auto|discriminate].
+Qed.
+
 Theorem local_answers_as_specified s : canonical s ->
   forall fuel n sels j, spec_exec s fuel n sels = Some j -> local_exec s fuel n sels = Some j.
 Proof.
   intros Hc. unfold spec_exec, local_exec.
   induction fuel as [|f IH]; intros n sels j; cbn [exec]; destruct (negb (alive s n)); auto.
   generalize (@nil (string * json)) as acc. induction sels as [|sel rest IHs]; intros acc; [auto|].
-  destruct sel as [a nm incl tn sub].
-  destruct (assoc a acc) eqn:Ea; cbn [andb]; [discriminate|].
-  pose proof (field_agree s n (ISel a nm incl tn sub) Hc) as Hag.
-  destruct (spec_field s n (ISel a nm incl tn sub)) as [j0|c|cs| |] eqn:Es; try discriminate.
-  - destruct (Hag ltac:(discriminate)) as [<-|(Hj & c & -> & Hdead)]; [apply IHs|].
-    injection Hj as ->. destruct f; cbn [exec]; rewrite Hdead; cbn [negb]; apply IHs.
-  - destruct (Hag ltac:(discriminate)) as [<-|(Hj & _)]; [|discriminate].
-    destruct (exec (spec_field s) (alive s) true f c sub) as [jc|] eqn:Ec; [|discriminate].
-    rewrite (IH _ _ _ Ec). apply IHs.
-  - destruct (Hag ltac:(discriminate)) as [<-|(Hj & _)]; [|discriminate].
-    destruct (all_some (map (fun c => exec (spec_field s) (alive s) true f c sub) cs)) as [js|] eqn:Ecs; [|discriminate].
-    rewrite (all_some_map_agree _ (fun c => exec (local_field s) (alive s) false f c sub) _ _ (fun x y => IH x sub y) Ecs). apply IHs.
-  - destruct (Hag ltac:(discriminate)) as [<-|(Hj & _)]; [apply IHs|discriminate].
+  cbn [build]. destruct (assoc (sel_alias sel) acc) eqn:Ea; cbn [andb]; [discriminate|].
+  destruct (member_value (spec_field s) (exec (spec_field s) (alive s) true f) n sel) as [v|] eqn:Ev; [|discriminate].
+  rewrite (member_value_agree s Hc f n sel v IH Ev). apply IHs.
 Qed.
 
 (* __type(name:) and the entries of __schema.types are the same computation *)
